@@ -455,3 +455,148 @@ func objPos(o *ast.Object) token.Pos {
 }
 
 func sfLeanStr(s string) string { return fmt.Sprintf("%q", s) }
+
+// ---------------------------------------------------------------- writes through shared objects
+
+type objWrite struct {
+	Obj   string // struct type of the shared object (runtime component / ECALRuntimeProvider)
+	Field string
+	Fn    string
+	Kind  string
+}
+
+func isSharedObjType(name string) bool {
+	return name == "ECALRuntimeProvider" || strings.HasSuffix(name, "Runtime")
+}
+
+func typeNameOf(e ast.Expr) string {
+	if s, ok := e.(*ast.StarExpr); ok {
+		e = s.X
+	}
+	if id, ok := e.(*ast.Ident); ok {
+		return id.Name
+	}
+	return ""
+}
+
+// selectorPath returns root identifier and the selector names from the root outwards
+// (index / star / paren are skipped): rt.erp.Mutexes[name] -> rt, [erp Mutexes]
+func selectorPath(e ast.Expr) (*ast.Ident, []string) {
+	var rev []string
+	for {
+		switch x := e.(type) {
+		case *ast.ParenExpr:
+			e = x.X
+		case *ast.IndexExpr:
+			e = x.X
+		case *ast.SliceExpr:
+			e = x.X
+		case *ast.StarExpr:
+			e = x.X
+		case *ast.SelectorExpr:
+			rev = append(rev, x.Sel.Name)
+			e = x.X
+		case *ast.Ident:
+			path := make([]string, len(rev))
+			for i := range rev {
+				path[len(rev)-1-i] = rev[i]
+			}
+			return x, path
+		default:
+			return nil, nil
+		}
+	}
+}
+
+// sharedObjectWriteFacts: assignments / inc-dec / map-index writes / deletes / address-of /
+// atomic updates of FIELDS of objects that are shared between parses and evaluations:
+// the runtime provider and the runtime components attached to an AST. The object is
+// recognised syntactically: the method receiver or a parameter whose declared type is
+// *ECALRuntimeProvider or a struct type named …Runtime (a field `erp` on the way leads to
+// the provider). Locals initialised inside the function (fresh objects) are not counted.
+func sharedObjectWriteFacts(root string, pkg string) ([]objWrite, error) {
+	p, err := loadSrcPkg(filepath.Join(root, pkg))
+	if err != nil {
+		return nil, err
+	}
+	seen := map[objWrite]bool{}
+	var out []objWrite
+	for _, f := range p.files {
+		imports := fileImports(f)
+		for _, d := range f.Decls {
+			fd, ok := d.(*ast.FuncDecl)
+			if !ok || fd.Body == nil {
+				continue
+			}
+			shared := map[*ast.Object]string{}
+			add := func(fl *ast.FieldList) {
+				if fl == nil {
+					return
+				}
+				for _, fld := range fl.List {
+					tn := typeNameOf(fld.Type)
+					if !isSharedObjType(tn) {
+						continue
+					}
+					for _, n := range fld.Names {
+						if n.Obj != nil {
+							shared[n.Obj] = tn
+						}
+					}
+				}
+			}
+			add(fd.Recv)
+			add(fd.Type.Params)
+			// parameters of function literals inside count too
+			ast.Inspect(fd.Body, func(n ast.Node) bool {
+				if fl, ok := n.(*ast.FuncLit); ok {
+					add(fl.Type.Params)
+				}
+				return true
+			})
+			if len(shared) == 0 {
+				continue
+			}
+			fn := funcName(p.name, fd)
+			body := fd.Body
+			forEachWrite(body, imports, func(t ast.Expr, kind string, pos token.Pos) {
+				id, path := selectorPath(t)
+				if id == nil || id.Obj == nil || len(path) == 0 {
+					return
+				}
+				obj, ok := shared[id.Obj]
+				if !ok {
+					return
+				}
+				field := path[0]
+				if field == "erp" && len(path) > 1 {
+					obj, field = "ECALRuntimeProvider", path[1]
+				} else if field == "baseRuntime" && len(path) > 1 {
+					field = path[1]
+				}
+				if kind != "atomic" && lockBefore(body, pos) {
+					kind += "+lock"
+				}
+				w := objWrite{obj, field, fn, kind}
+				if !seen[w] {
+					seen[w] = true
+					out = append(out, w)
+				}
+			})
+		}
+	}
+	sort.Slice(out, func(i, j int) bool {
+		a, b := out[i], out[j]
+		if a.Obj != b.Obj {
+			return a.Obj < b.Obj
+		}
+		if a.Field != b.Field {
+			return a.Field < b.Field
+		}
+		if a.Fn != b.Fn {
+			return a.Fn < b.Fn
+		}
+		return a.Kind < b.Kind
+	})
+	return out, nil
+}
